@@ -104,15 +104,15 @@ def typesMatch (As : List GoType) (es : List Entry) : Bool :=
 
 /-- `FMapN(seq, NewLens[T, A₁], …, NewLens[T, A_N])` on exactly N entries: every guard is checked
 left to right; all pass → the positional lenses, else `panic(fmt.Errorf(…))`. -/
-theorem zipE_newLens (T : GoType) : (As : List GoType) → (es : List Entry) → es.length = As.length →
+theorem zipE_newLens (T : GoType) (hT : T.kind = .struct) : (As : List GoType) → (es : List Entry) → es.length = As.length →
     zipE es (As.map (newLens T)) =
       if typesMatch As es then .ok (List.zipWith (mkLens T) As es) else .error .error
   | [], [], _ => by simp [zipE, typesMatch]
   | [], _ :: _, h => by simp at h
   | _ :: _, [], h => by simp at h
   | A :: As, e :: es, h => by
-    have ih := zipE_newLens T As es (by simpa using h)
-    simp only [List.map_cons, zipE, newLens, typesMatch, List.zip_cons_cons, List.all_cons, List.zipWith_cons_cons]
+    have ih := zipE_newLens T hT As es (by simpa using h)
+    simp only [List.map_cons, zipE, newLens, hT, ne_eq, not_true_eq_false, if_false, typesMatch, List.zip_cons_cons, List.all_cons, List.zipWith_cons_cons]
     by_cases hA : e.field.type = A
     · simp only [hA, if_true, decide_true, Bool.true_and]
       rw [ih]
@@ -122,10 +122,10 @@ theorem zipE_newLens (T : GoType) : (As : List GoType) → (es : List Entry) →
       · simp [hall]
     · simp [hA]
 
-theorem zipE_newReflector (T : GoType) (As : List GoType) (es : List Entry) (h : es.length = As.length) :
+theorem zipE_newReflector (T : GoType) (hT : T.kind = .struct) (As : List GoType) (es : List Entry) (h : es.length = As.length) :
     zipE es (As.map (newReflector T)) =
       if typesMatch As es then .ok (List.zipWith (mkLens T) As es) else .error .error :=
-  zipE_newLens T As es h
+  zipE_newLens T hT As es h
 
 theorem mapE_length {α β : Type} (f : α → Except Panic β) (xs : List α) (ys : List β)
     (h : mapE f xs = .ok ys) : ys.length = xs.length :=
@@ -178,43 +178,30 @@ theorem attrNames_short (n : Nat) (attr : List String) (hn : attr.length < n) (h
     | cons a as => simp at hn; omega
   simp [this, sliceTo]; omega
 
-/-- By type (no names): all witness types are looked up first, then the lenses are made. -/
-theorem deriveN_by_type (mk : GoType → GoType → Entry → Except Panic Lens) (hmk : mk = newLens ∨ mk = newReflector)
+/-- By type (no names), any container and any constructor: all witness types are looked up first,
+then `FMapN` applies the constructors positionally. -/
+theorem deriveN_by_type_pre (mk : GoType → GoType → Entry → Except Panic Lens)
     (T : GoType) (seq : List Entry)
     (hseq : unfold (if T.kind = .ptr then T.elem else T) [] 0 = .ok seq) (As : List GoType) :
     deriveN mk T As [] =
       match mapE (forType seq) As with
       | .error p => .error p
-      | .ok es => .ok (List.zipWith (mkLens T) As es) := by
-  have hmk' : ∀ es, es.length = As.length → zipE es (As.map (mk T)) =
-      if typesMatch As es then .ok (List.zipWith (mkLens T) As es) else .error .error := by
-    intro es h; rcases hmk with rfl | rfl
-    · exact zipE_newLens T As es h
-    · exact zipE_newReflector T As es h
+      | .ok es => zipE es (As.map (mk T)) := by
   simp only [deriveN, List.isEmpty_nil, if_true, newN, hseqNew, hseq]
   cases hm : mapE (forType seq) As with
   | error p => rfl
-  | ok es =>
-    simp only [fmapN_zipE]
-    rw [hmk' es (mapE_length _ _ _ hm)]
-    rw [typesMatch_of_forType seq As es ((mapE_ok_iff _ _ _).mp hm)]
-    rfl
+  | ok es => simp only [fmapN_zipE]
 
-/-- By name, with at least N names: the first N names are looked up first (in order), then the
-type guards are checked left to right. -/
-theorem deriveN_by_name (mk : GoType → GoType → Entry → Except Panic Lens) (hmk : mk = newLens ∨ mk = newReflector)
+/-- By name with at least N names, any container and any constructor: the first N names are looked
+up first (in order), then `FMapN` applies the constructors positionally. -/
+theorem deriveN_by_name_pre (mk : GoType → GoType → Entry → Except Panic Lens)
     (T : GoType) (seq : List Entry)
     (hseq : unfold (if T.kind = .ptr then T.elem else T) [] 0 = .ok seq) (As : List GoType) (attr : List String)
     (hne : attr ≠ []) (h1 : 1 ≤ As.length) (hlen : As.length ≤ attr.length) :
     deriveN mk T As attr =
       match mapE (forName seq) (attr.take As.length) with
       | .error p => .error p
-      | .ok es => if typesMatch As es then .ok (List.zipWith (mkLens T) As es) else .error .error := by
-  have hmk' : ∀ es, es.length = As.length → zipE es (As.map (mk T)) =
-      if typesMatch As es then .ok (List.zipWith (mkLens T) As es) else .error .error := by
-    intro es h; rcases hmk with rfl | rfl
-    · exact zipE_newLens T As es h
-    · exact zipE_newReflector T As es h
+      | .ok es => zipE es (As.map (mk T)) := by
   have hemp : attr.isEmpty = false := by cases attr <;> simp_all
   have htake : (attr.take As.length).isEmpty = false := by
     cases attr with
@@ -226,11 +213,76 @@ theorem deriveN_by_name (mk : GoType → GoType → Entry → Except Panic Lens)
   simp only [deriveN, hemp, attrNames_ok _ attr hne hlen h1, hseqNew, hseq, htake]
   cases hm : mapE (forName seq) (attr.take As.length) with
   | error p => simp
+  | ok es => simp only [fmapN_zipE, Bool.false_eq_true, if_false]
+
+/-- By type, struct container: the lookups, then the positional lenses (the guards cannot fail). -/
+theorem deriveN_by_type (mk : GoType → GoType → Entry → Except Panic Lens) (hmk : mk = newLens ∨ mk = newReflector)
+    (T : GoType) (hT : T.kind = .struct) (seq : List Entry)
+    (hseq : unfold (if T.kind = .ptr then T.elem else T) [] 0 = .ok seq) (As : List GoType) :
+    deriveN mk T As [] =
+      match mapE (forType seq) As with
+      | .error p => .error p
+      | .ok es => .ok (List.zipWith (mkLens T) As es) := by
+  have hmk' : ∀ es, es.length = As.length → zipE es (As.map (mk T)) =
+      if typesMatch As es then .ok (List.zipWith (mkLens T) As es) else .error .error := by
+    intro es h; rcases hmk with rfl | rfl
+    · exact zipE_newLens T hT As es h
+    · exact zipE_newReflector T hT As es h
+  rw [deriveN_by_type_pre mk T seq hseq As]
+  cases hm : mapE (forType seq) As with
+  | error p => rfl
+  | ok es =>
+    simp only
+    rw [hmk' es (mapE_length _ _ _ hm)]
+    rw [typesMatch_of_forType seq As es ((mapE_ok_iff _ _ _).mp hm)]
+    rfl
+
+/-- By name, struct container, at least N names: the first N names are looked up first (in order),
+then the type guards are checked left to right. -/
+theorem deriveN_by_name (mk : GoType → GoType → Entry → Except Panic Lens) (hmk : mk = newLens ∨ mk = newReflector)
+    (T : GoType) (hT : T.kind = .struct) (seq : List Entry)
+    (hseq : unfold (if T.kind = .ptr then T.elem else T) [] 0 = .ok seq) (As : List GoType) (attr : List String)
+    (hne : attr ≠ []) (h1 : 1 ≤ As.length) (hlen : As.length ≤ attr.length) :
+    deriveN mk T As attr =
+      match mapE (forName seq) (attr.take As.length) with
+      | .error p => .error p
+      | .ok es => if typesMatch As es then .ok (List.zipWith (mkLens T) As es) else .error .error := by
+  have hmk' : ∀ es, es.length = As.length → zipE es (As.map (mk T)) =
+      if typesMatch As es then .ok (List.zipWith (mkLens T) As es) else .error .error := by
+    intro es h; rcases hmk with rfl | rfl
+    · exact zipE_newLens T hT As es h
+    · exact zipE_newReflector T hT As es h
+  rw [deriveN_by_name_pre mk T seq hseq As attr hne h1 hlen]
+  cases hm : mapE (forName seq) (attr.take As.length) with
+  | error p => rfl
   | ok es =>
     have hl : es.length = As.length := by
       rw [mapE_length _ _ _ hm]; simp; omega
-    simp only [fmapN_zipE, Bool.false_eq_true, if_false]
+    simp only
     rw [hmk' es hl]
+
+/-- A container type parameter that is not a struct: the first constructor call of `FMapN` panics
+(or indexing does), so `FMapN` with at least one constructor never returns. -/
+theorem zipE_non_struct (mk : GoType → GoType → Entry → Except Panic Lens) (hmk : mk = newLens ∨ mk = newReflector)
+    (T : GoType) (hT : T.kind ≠ .struct) (es : List Entry) (A : GoType) (As : List GoType) :
+    ∃ p, zipE es ((A :: As).map (mk T)) = .error p := by
+  cases es with
+  | nil => exact ⟨.index, rfl⟩
+  | cons e es =>
+    refine ⟨.error, ?_⟩
+    rcases hmk with rfl | rfl <;> simp [zipE, newLens, newReflector, hT]
+
+theorem GoType.fields?_of_kind_struct : (t : GoType) → t.kind = .struct → ∃ fs, t.fields? = some fs
+  | .struct fs, _ => ⟨fs, rfl⟩
+  | .named _ u, h => by simpa [GoType.fields?] using u.fields?_of_kind_struct (by simpa [GoType.kind] using h)
+  | .prim _, h | .slice _, h | .ptr _, h | .map _ _, h | .chan _, h | .func _, h | .array _ _, h => by
+    simp [GoType.kind] at h
+
+theorem GoType.kind_of_fields? : (t : GoType) → (fs : Fields) → t.fields? = some fs → t.kind = .struct
+  | .struct _, _, _ => rfl
+  | .named _ u, fs, h => by simpa [GoType.kind] using u.kind_of_fields? fs (by simpa [GoType.fields?] using h)
+  | .prim _, _, h | .slice _, _, h | .ptr _, _, h | .map _ _, _, h | .chan _, _, h | .func _, _, h | .array _ _, _, h => by
+    simp [GoType.fields?] at h
 
 end Golem.Model
 
@@ -262,13 +314,13 @@ theorem zipWith_sound (T : GoType) (seq : List Entry) : (As : List GoType) → (
 /-- Whatever `deriveN` returns is, position by position, a lens on an entry of the full listing
 whose declared type is identical to the requested focus type. -/
 theorem deriveN_sound (mk : GoType → GoType → Entry → Except Panic Lens) (hmk : mk = newLens ∨ mk = newReflector)
-    (T : GoType) (seq : List Entry)
+    (T : GoType) (hT : T.kind = .struct) (seq : List Entry)
     (hseq : unfold (if T.kind = .ptr then T.elem else T) [] 0 = .ok seq) (As : List GoType) (attr : List String)
     (h1 : 1 ≤ As.length) (ls : List Lens) (hok : deriveN mk T As attr = .ok ls) :
     Pointwise (fun A l => ∃ e ∈ seq, e.field.type = A ∧ l = mkLens T A e) As ls := by
   by_cases hne : attr = []
   · subst hne
-    rw [deriveN_by_type mk hmk T seq hseq As] at hok
+    rw [deriveN_by_type mk hmk T hT seq hseq As] at hok
     cases hm : mapE (forType seq) As with
     | error p => simp [hm] at hok
     | ok es =>
@@ -277,7 +329,7 @@ theorem deriveN_sound (mk : GoType → GoType → Entry → Except Panic Lens) (
       exact zipWith_sound T seq As es (mapE_length _ _ _ hm)
         (hp.forall_right (fun A e h => (forType_type seq A e h).2)) (typesMatch_of_forType seq As es hp)
   · by_cases hlen : As.length ≤ attr.length
-    · rw [deriveN_by_name mk hmk T seq hseq As attr hne h1 hlen] at hok
+    · rw [deriveN_by_name mk hmk T hT seq hseq As attr hne h1 hlen] at hok
       cases hm : mapE (forName seq) (attr.take As.length) with
       | error p => simp [hm] at hok
       | ok es =>
